@@ -23,9 +23,9 @@ func init() {
 }
 
 func runC04(c *core.Ctx) {
-	c.Rule("R1", "localCAS tombstones: state=tombstone and timestamp=clock.Unix() are stored together, iff the entry is missing from the incoming value and is not yet a tombstone", 3)
+	c.Rule("R1", "localCAS tombstones: state=tombstone and timestamp=clock.Unix() are stored together, iff the entry is missing from the incoming value and is not yet a tombstone", 5)
 	c.Rule("R2", "removal wins ties: LWW decision table of every register (same evaluation as C03.R1)", 4)
-	c.Rule("R3", "readers never see tombstones: closed census of ValueDesc.value accesses; get = Clone + RemoveTombstones(zero) on every non-nil path; reader exits receive get's result", 8)
+	c.Rule("R3", "readers never see tombstones: closed census of ValueDesc.value accesses; get = Clone + RemoveTombstones(zero) on every non-nil path; reader exits receive get's result", 11)
 	c.Rule("R4", "RemoveTombstones call sites: zero-limit on the clone in get; retention-bounded (now - LeftIngestersTimeout, under LeftIngestersTimeout > 0) in mergeValueForKey; nowhere else", 3)
 	c.Rule("R5", "RemoveTombstones implementations delete ⇔ tombstone ∧ (limit.IsZero() ∨ timestamp.Before(limit))", 3)
 	c.Rule("R6", "push/pull (LocalState) encodes the stored value with its tombstones", 1)
